@@ -31,7 +31,7 @@ func hSendProto(o Op) map[string]interface{} {
 		return map[string]interface{}{"err": "source: " + err.Error()}
 	}
 	opt := Op(o["opt"].(map[string]interface{}))
-	cfg := streamCfg{Cap: opt.num("cap"), DelayUS: opt.num("delay"), Window: opt.num("window"), Seed: int64(opt.num("seed"))}
+	cfg := streamCfg{Cap: opt.num("cap"), DelayUS: opt.num("delay"), LingerUS: opt.num("linger"), Window: opt.num("window"), Seed: int64(opt.num("seed"))}
 	if mfs != nil {
 		mfs.readSizes = intList(opt.arr("readsizes"))
 	}
